@@ -103,9 +103,15 @@ pub fn gen_stream(cx: &Cx) -> (Vec<u8>, Vec<&'static str>) {
     match cx.draw(4) {
         0 => {}
         1 => {
-            // last line without LF
+            // last line without LF: the bare frame, or the frame with its CR but the LF cut off
             out.extend(gen_frame(cx).to_bytes());
-            kinds.push("frame-without-lf-at-eof");
+            if cx.chance(1, 2) {
+                out.push(b'\r');
+                kinds.push("frame-with-cr-but-no-lf-at-eof");
+                cx.probe("line_ending_in_cr_at_eof");
+            } else {
+                kinds.push("frame-without-lf-at-eof");
+            }
             cx.probe("line_without_lf_at_eof");
         }
         _ => {
